@@ -1,5 +1,5 @@
 """C20 - runs are deterministic and VM instances living in one process are isolated from each other."""
-import json, os, sys
+import json, os, re, sys
 import vcommon as V
 import vmcommon as VM
 
@@ -186,7 +186,88 @@ def main(replay=None):
                     m, {"after": "Q ran before it", "beside": "Q ran beside it on another thread", "twice": "the same program ran before it"}[m]), rep)
                 break
 
+    # ------------------------------------------------------------- family C: operators that hand out containers
+    # For every nular operator of the registry, and every unary one with a simple argument of its registered type, that returns an
+    # ARRAY or a HASHMAP: Q edits the returned container in place, P prints what the operator returns.  If the container is an
+    # object shared by the VM instances of the process (a static), P sees Q's edits.  Judged by the property itself.
+    casesC = []
+    if replay:
+        r = json.load(open(replay))["replay"]
+        if r.get("family") == "C":
+            casesC = [(r["expr"], r["kind"], r["text_q"])]
+    elif not replay:
+        import subprocess
+        cdir = os.path.join(V.VERIF, "corpus", PID)
+        if os.path.isdir(cdir):
+            for fn in sorted(os.listdir(cdir)):
+                r = json.load(open(os.path.join(cdir, fn)))
+                if r.get("family") == "C":
+                    casesC.append((r["expr"], r["kind"], r["text_q"]))
+        reg = subprocess.run([hapi, "ops"], stdout=subprocess.PIPE, timeout=120).stdout.decode("latin-1").split("\n")
+        # the property excepts the time and random operators; the rest of the list keeps the discovery itself harmless
+        deny = re.compile(r"time|date|tick|random|sleep|exit|halt|breakpoint|extension|clipboard|loadfile|preprocess|execvm|"
+                          r"^call$|spawn|compile|terminate|waituntil|assert|throw|^for$|^while$|^if$|^switch$|^try$|^with$|^private$|"
+                          r"allvariables|supportinfo|diag_|__$")
+        ARG = {"SCALAR": ["1"], "STRING": ['"a"'], "ARRAY": ["[1, 2]", "[]"], "BOOL": ["true"], "ANY": ["1", "[3]"], "HASHMAP": ["createHashMap"],
+               "NAMESPACE": ["missionNamespace"], "CONFIG": ["configFile"]}
+        exprs = []
+        for line in reg:
+            f = line.split("\t")
+            if f[0] == "N" and not deny.search(f[1]):
+                exprs.append(f[1])
+            elif f[0] == "U" and len(f) == 3 and not deny.search(f[1]) and re.match(r"^[a-z_][a-z0-9_]*$", f[1]):
+                exprs += ["%s %s" % (f[1], a) for a in ARG.get(f[2], [])]
+        exprs = sorted(set(exprs))
+        dist["C candidate expressions"] = len(exprs)
+        rc, disc, _ = V.run_lines_parallel([hapi, "iso"], ["alone\t%s\t%s" % (hx("diag_log typeName (%s)" % e), hx("")) for e in exprs], timeout=3000)
+        EDITS_A = ["_r pushBack 99", "_r set [0, 98]", "_r append [97, 96]", "_r deleteAt 0", "reverse _r", "_r resize 1", "_r sort true"]
+        EDITS_H = ['_r set ["verif", 1]', '_r deleteAt "verif2"', '_r set [0, [9]]']
+        for e, d in zip(exprs, disc):
+            kind = "ARRAY" if ":M<ARRAY>" in d else "HASHMAP" if ":M<HASHMAP>" in d else None
+            if kind is None:
+                continue
+            eds = EDITS_A if kind == "ARRAY" else EDITS_H
+            k = rng.randrange(len(eds))
+            for chosen in ([eds[k], eds[(k + 3) % len(eds)]], eds if kind == "ARRAY" else eds[::-1]):
+                casesC.append((e, kind, "private _r = (%s); %s; diag_log str _r" % (e, "; ".join(chosen))))
+    il = []
+    for e, kind, tq in casesC:
+        tp = "diag_log str (%s); diag_log str count (%s)" % (e, e)
+        for m in ("alone", "after", "twice", "beside"):
+            il.append("%s\t%s\t%s" % (m, hx(tp), hx(tq)))
+    rc, implC, _ = V.run_lines_parallel([hapi, "iso"], il, timeout=3000)
+    it = iter(implC)
+    dist["C container-returning expressions x edits"] = len(casesC)
+    flagged = set()
+    for e, kind, tq in casesC:
+        r = {m: next(it) for m in ("alone", "after", "twice", "beside")}
+        evaluations += 3
+        distinct.add(("C", e))
+        if e in flagged:
+            continue
+        for m in ("after", "twice", "beside"):
+            if r[m] != r["alone"]:
+                flagged.add(e)
+                rep = {"family": "C", "expr": e, "kind": kind, "text_p": "diag_log str (%s); diag_log str count (%s)" % (e, e), "text_q": tq, "impl": r, "mode": m}
+                run.violation("`%s` hands out %s that is shared by the VM instances of the process: after one instance edited it in place, "
+                              "a fresh instance gets something else from the same operator (%s)" % (
+                                  e, {"ARRAY": "an array", "HASHMAP": "a hashmap"}[kind], {"after": "Q ran before it", "beside": "Q ran beside it on another thread", "twice": "P itself ran before it"}[m]), rep)
+                break
+
+    # ------------------------------------------------------------- the statics themselves, by name
+    expected = set(re.findall(r'^\s*\("((?:[^"]|"")*)",\s*(?:Mode|Registry|Scratch|Constant)\)', open(os.path.join(V.COQ, "API", "IsoDefs.v")).read(), re.M))
+    found_st = set(st["where"])
+    appeared, gone = sorted(found_st - expected), sorted(expected - found_st)
+    static_note = ""
+    if appeared or gone:
+        static_note = "; ".join(
+            (["new object(s) with static storage in a writable section: " + ", ".join("%s (defined in %s)" % (n, ", ".join(st["where"][n])) for n in appeared)] if appeared else []) +
+            (["classified static(s) no longer present: " + ", ".join(gone)] if gone else []))
+        run.violation("the writable statics of the implementation are not the classified ones (C20_statics_are_exactly_known): " + static_note,
+                      {"broken": "C20_statics_are_exactly_known", "appeared": {n: st["where"][n] for n in appeared}, "disappeared": gone}, found_input=False)
     for p in problems:
+        if static_note and "Properties_C20" in p:
+            p = p + " [" + static_note + "]"
         run.violation("proof obligation not discharged: " + p, {"broken": p, "theorems": run.cov["theorems"]}, found_input=False)
     run.cov["evaluations"] = evaluations
     run.cov["distinct_nontrivial"] = len(distinct)
@@ -194,7 +275,9 @@ def main(replay=None):
                        "another thread; family A: programs over the process state (toFixed k, str n, __COUNTER__, __COUNTER_RESET__, global set / isNil) - printed lines vs "
                        "IsoDefs.run under the placement of the components found by nm on this tree, under that placement minus the print mode, and under full isolation; "
                        "family B: pairs of programs from vmcommon.Gen - byte-wise comparison of the whole record (result, state, level:code, printed lines, value); "
-                       "the concurrent case is demanded only where the footprints cannot meet (partial)")
+                       "family C: every nular operator of the registry and every unary one with a simple argument of its registered type that returns an ARRAY / HASHMAP "
+                       "(discovered on this run; time/random and control operators excepted): Q edits the returned container in place, P prints the operator's result, four modes; "
+                       "the concurrent case of family A is demanded only where the footprints cannot meet (partial)")
     run.cov["input_distribution"] = dist
     run.cov["samples"] = samples
     run.cov["statics"] = sorted(st["where"])
